@@ -1142,7 +1142,7 @@ def run_sj_cases(chk, maxlen, nrandom):
         chk.disagree("safe_join/relpath model != django safe_join / os.path.relpath", {"kind": "sj", "root": cases[i][0], "paths": cases[i][1]})
 
 
-N_RANDOM = {"quick": 2000, "thorough": 12000}
+N_RANDOM = {"quick": 1800, "thorough": 12000}
 if os.environ.get("C17_RANDOM"):            # development knob only (mutation experiments on a loaded machine)
     N_RANDOM = {k: int(os.environ["C17_RANDOM"]) for k in N_RANDOM}
 CHUNK = 1500
